@@ -1,5 +1,5 @@
 CONSTANTS
-  Alphabet = {"[a]: /u", "(t", "t)", "# h", "> q", "- x", "---", "```", "a", "", "[a]", "(t)", "<div>", "    c"}
+  Alphabet = {"[a]: /u", "(t", "t)", "# h", "> q", "- x", "---", "***", "```", "a", "", "[a]", "(t)", "<div>", "    c"}
   MaxLines = 4
 SPECIFICATION Spec
 INVARIANT TypeOK
